@@ -341,8 +341,10 @@ func (R *Renderer) load(x *ssa.UnOp) string {
 	case *ssa.IndexAddr:
 		return R.V(a.X) + "[" + R.idx(a.Index) + "]"
 	case *ssa.Alloc:
-		if val := reachingStore(a, x); val != nil {
-			return R.V(val)
+		if !allocModifiedPiecewise(a) {
+			if val := reachingStore(a, x); val != nil {
+				return R.V(val)
+			}
 		}
 		return "var(" + a.Comment + ")"
 	case *ssa.Global:
@@ -421,8 +423,44 @@ func allocModifiedPiecewise(a *ssa.Alloc) bool {
 				return true
 			}
 		case *ssa.UnOp, *ssa.DebugRef:
+		case *ssa.MakeClosure:
+			for i, bnd := range x.Bindings {
+				if bnd == ssa.Value(a) {
+					cl := x.Fn.(*ssa.Function)
+					if freeVarStored(cl, cl.FreeVars[i]) || freeVarPiecewise(cl, cl.FreeVars[i]) {
+						return true
+					}
+				}
+			}
 		default:
-			return true // passed to a call, captured, ...
+			return true // passed to a call, ...
+		}
+	}
+	return false
+}
+
+// freeVarPiecewise: the closure stores into a field of the captured struct variable or passes its address on.
+func freeVarPiecewise(cl *ssa.Function, fv *ssa.FreeVar) bool {
+	for _, r := range *fv.Referrers() {
+		switch x := r.(type) {
+		case *ssa.FieldAddr:
+			for _, rr := range *x.Referrers() {
+				if st, ok := rr.(*ssa.Store); ok && st.Addr == ssa.Value(x) {
+					return true
+				}
+			}
+		case *ssa.UnOp, *ssa.Store, *ssa.DebugRef:
+		case *ssa.MakeClosure:
+			for i, bnd := range x.Bindings {
+				if bnd == ssa.Value(fv) {
+					in := x.Fn.(*ssa.Function)
+					if freeVarStored(in, in.FreeVars[i]) || freeVarPiecewise(in, in.FreeVars[i]) {
+						return true
+					}
+				}
+			}
+		default:
+			return true
 		}
 	}
 	return false
